@@ -1,6 +1,7 @@
 import Stackage.Driver.Parse
 import Stackage.Model.Options
 import Stackage.Spec.ListSpec
+import Stackage.Model.Marshal
 
 namespace Stackage.Driver
 open Stackage
@@ -51,6 +52,7 @@ inductive HOp where
   | ro (b : Bool)
   | ppol (p : Nat)
   | clrerr
+  | marshal (args : Val)                -- (*Stack).Marshal(args...) into the (initialised) receiver
   | cfg                                 -- dump of the configuration record and of which policies are present
   | xferto (src : Val)
   | xfer (dest : Val)
@@ -81,6 +83,7 @@ def parseHOp (ts : List String) : HOp :=
   | ["ppol", p] => .ppol (toNat p)
   | ["clrerr"] => .clrerr
   | ["cfg"] => .cfg
+  | "marshal" :: rest => .marshal (parseVal rest).1
   | "xferto" :: rest => .xferto (parseVal rest).1
   | "xfer" :: rest => .xfer (parseVal rest).1
   | "q" :: kind :: rest => .q kind (match rest with | [] => .nil | _ => (parseVal rest).1)
@@ -117,6 +120,11 @@ partial def histModel (s : Stk) (ops : List HOp) (acc : List String) : List Stri
     | .ppol p => let s' := s.SetPushPolicy (if p == 0 then none else some p); histModel s' rest (s!"- {obsModel s'}" :: acc)
     | .clrerr => let s' := s.SetErr none; histModel s' rest (s!"- {obsModel s'}" :: acc)
     | .cfg => histModel s rest (s!"{cfgDump s.cfg} {obsModel s}" :: acc)
+    | .marshal args =>
+      let input := match args with | .anys xs => xs | _ => []
+      let (z, err) := marshalInto interp (some s) input
+      let s' := z.getD s
+      histModel s' rest (s!"M{if err.isSome then "err" else "ok"} {obsModel s'}" :: acc)
     | .xferto src =>
       match src with
       | .stk _ c xs =>
@@ -192,6 +200,17 @@ partial def histSpec (st : SpecSt) (ops : List HOp) (acc : List String) : List S
     | .clrerr => let st' := { st with err := none }
                  histSpec st' rest (s!"- {obsSpec st'}" :: acc)
     | .cfg => histSpec st rest (s!"{cfgDump { st.cfg0 with err := st.err, ppf := st.ppf }} {obsSpec st}" :: acc)
+    | .marshal args =>
+      -- C03 / C16: an initialised receiver gains the decoded Stack or Condition as ONE new element, if there is room
+      -- (a Push of one value: capacity, policy, no-nesting and read-only apply); its configuration stays
+      let input := match args with | .anys xs => xs | _ => []
+      let r := marshalList input
+      let st' := if input.isEmpty then st else match r.stk, r.cnd with
+        | some x, _ => specPush st [x]
+        | none, some x => specPush st [x]
+        | none, none => st
+      let err := input.isEmpty || r.err.isSome
+      histSpec st' rest (s!"M{if err then "err" else "ok"} {obsSpec st'}" :: acc)
     | .xferto src =>
       match src with
       | .stk _ c xs =>
@@ -244,6 +263,7 @@ partial def histInScope (st : SpecSt) (ops : List HOp) : Bool :=
       | .ppol p => (if st.c.ronly then st else { st with ppf := if p == 0 then none else some p }, true)
       | .clrerr => (st, true)
       | .cfg => (st, true)
+      | .marshal _ => (st, true)
       | .fifoOff => (st, true)
       | .xferto src => (match src with
           | .stk _ _ xs => if st.c.ronly then st else (specTransfer xs st).1
